@@ -93,6 +93,7 @@ class Ctx:
     def case(self, case, nontrivial=True, kind=None):
         """Register one explored case. `case` must be JSON-able."""
         self.evaluations += 1
+        self.last_case = case
         if nontrivial:
             h = hashlib.blake2b(canon(case).encode(), digest_size=8).digest()
             self.distinct.add(h)
